@@ -65,6 +65,7 @@ package revocation
 
 import (
 	"bytes"
+	"crypto/sha256"
 	"encoding/base64"
 	"encoding/binary"
 	"encoding/json"
@@ -512,9 +513,22 @@ func (el *EventList) Verify(acc *Accumulator) error {
 		return errors.WrapPrefix(err, "update chain has wrong hash", 0)
 	}
 
+	// The bytes hashed for an event are index || parent hash || value, without length framing, and the parent hash of
+	// the first event is compared with nothing. Insist that it is a full-length SHA-256 multihash (as every parent hash
+	// this package produces is) and that the values are positive (the sign is not hashed): then the hashed bytes
+	// determine index, parent hash and value, and an altered first event cannot keep the hashes of the chain.
+	if err = events[0].ParentHash.wellFormed(); err != nil {
+		el.validationErr = errors.WrapPrefix(err, "first event has malformed parent hash", 0)
+		return el.validationErr
+	}
+
 	// Verify the hashes of the chain, computing the product of all revoked attributes along the way
 	startIndex := events[0].Index
 	for i, event := range events {
+		if event.E == nil || event.E.Sign() <= 0 {
+			el.validationErr = errors.Errorf("event %d has no positive value", i)
+			return el.validationErr
+		}
 		if i != 0 {
 			if err = events[i-1].hashEquals(event.ParentHash); err != nil {
 				el.validationErr = errors.WrapPrefix(
@@ -604,6 +618,21 @@ func (hash Hash) String() string {
 
 func (hash Hash) Equal(other Hash) bool {
 	return bytes.Equal(hash, other)
+}
+
+// wellFormed checks that the hash is a SHA-256 multihash with a digest of full length.
+func (hash Hash) wellFormed() error {
+	mh, err := multihash.Decode(hash)
+	if err != nil {
+		return err
+	}
+	if err = checkHashAlg(mh.Code); err != nil {
+		return err
+	}
+	if mh.Length != sha256.Size {
+		return errors.New("truncated hash")
+	}
+	return nil
 }
 
 func (hash Hash) Algorithm() (uint64, error) {
